@@ -32,7 +32,7 @@ vars == <<pool, heap, hist>>
 (***************************************************************************)
 (* heap objects                                                            *)
 (*   [hk |-> "slist", items |-> Seq(pool index | 0 for `...`)]             *)
-(*   [hk |-> "sdict", pairs |-> Seq([key, ref (pool index | 0), opt])]     *)
+(*   [hk |-> "sdict", pairs |-> Seq([key, ref (pool index | 0 | -1), opt])] *)
 (*   [hk |-> "value", v |-> plain list/dict value]                         *)
 (***************************************************************************)
 Entry(sch, alias) == [sch |-> sch, alias |-> alias]
@@ -51,7 +51,8 @@ ListArgOf(h) == VList([j \in DOMAIN heap[h].items |->
 DictArgOf(h) == VDict([j \in DOMAIN heap[h].pairs |->
                          LET pr == heap[h].pairs[j] IN
                          IF pr.ref = 0 THEN KV(VEllipsis, VEllipsis)
-                         ELSE KV(IF pr.opt THEN VOptional(pr.key) ELSE pr.key, ASchema(Obs(pr.ref)))])
+                         ELSE KV(IF pr.opt THEN VOptional(pr.key) ELSE pr.key,
+                                 ASchema(IF pr.ref = -1 THEN BareInt ELSE Obs(pr.ref)))])     \* -1: a fresh schema.int
 
 Record(op) == hist' = Append(hist, op)
 Push(sch, alias) == pool' = Append(pool, Entry(sch, alias))
@@ -225,7 +226,9 @@ MutateHeap(h, edit) ==
 PoolIdx == DOMAIN pool
 HeapIdx == DOMAIN heap
 SListShapes == {<<i>> : i \in PoolIdx} \cup {<<i, 0>> : i \in PoolIdx} \cup {<<i, j>> : i, j \in PoolIdx}
-SDictShapes == {<<[key |-> KeyA, ref |-> i, opt |-> FALSE]>> : i \in PoolIdx}
+SDictShapes == {<<[key |-> KeyA, ref |-> -1, opt |-> TRUE]>>,          \* needs nothing from the pool
+                 <<[key |-> KeyA, ref |-> -1, opt |-> TRUE], [key |-> VEllipsis, ref |-> 0, opt |-> FALSE]>>}
+               \cup {<<[key |-> KeyA, ref |-> i, opt |-> FALSE]>> : i \in PoolIdx}
                \cup {<<[key |-> KeyA, ref |-> i, opt |-> TRUE], [key |-> VEllipsis, ref |-> 0, opt |-> FALSE]>> : i \in PoolIdx}
 
 Init == pool = <<>> /\ heap = <<>> /\ hist = <<>>
